@@ -1,47 +1,57 @@
-import QR.Model.Data
-import QR.Spec.Stream
-import QR.Proofs.Finite
-import QR.Props.C02
+import QR.Proofs.Fit
 /-
-C07 - fitting (finite part so far: the capacity table the bisect runs on is 8 x ISO data codewords, increasing).
+C07 - automatic fitting picks the smallest adequate version; capacities match ISO.
+`Model.bestFit` mirrors QRCode.best_fit: stream length with the count widths of the class of `start`, `bisect_left` on
+BIT_LIMIT_TABLE from `start`, re-fit recursion when the version class changes.  `Spec.fits v l cs` is the closed-form
+stream length with version v's own widths against 8 x ISO data codewords.  Unbounded in the segment list.
 -/
 namespace QR.Props
-open QR
+open QR QR.Model
 
-set_option maxRecDepth 100000 in
-/-- `BIT_LIMIT_TABLE[level][v]` = 8 · (ISO data codewords of (v, level)); entry 0 is 0 -/
-theorem C07_capacity_table : ∀ l ∈ allLevels,
+/-- **C07 (main)**: the fitted version is adequate, not below the start, at most 40, and every smaller admissible
+    version is inadequate -/
+theorem C07_minimal (start : Nat) (hs : start ≤ 40) (l : Spec.Level) (segs : List Seg) (ps : List Spec.PSeg)
+    (hv : ∀ s ∈ segs, s.Valid) (hp : toPSegs segs = some ps) (v : Nat)
+    (h : bestFit 4 start l.indicator segs = .ok v) :
+    max start 1 ≤ v ∧ v ≤ 40 ∧ Spec.fits v l (segCounts ps) = true ∧
+      ∀ u, max start 1 ≤ u → u < v → Spec.fits u l (segCounts ps) = false :=
+  QR.Proofs.bestFit_minimal start hs l segs ps hv hp v h
+
+/-- `best_fit` = the Spec's minimal-version function, including the overflow case -/
+theorem C07_eq_minVersion (start : Nat) (hs : start ≤ 40) (l : Spec.Level) (segs : List Seg) (ps : List Spec.PSeg)
+    (hv : ∀ s ∈ segs, s.Valid) (hp : toPSegs segs = some ps) :
+    bestFit 4 start l.indicator segs =
+      (match Spec.minVersion start l (segCounts ps) with
+       | some v => .ok v
+       | none => .error .dataOverflow) :=
+  QR.Proofs.bestFit_eq_minVersion start hs l segs ps hv hp
+
+/-- DataOverflowError exactly when no version from the start up to 40 holds the stream; no other error (shared with C03) -/
+theorem C07_overflow_iff (start : Nat) (hs : start ≤ 40) (l : Spec.Level) (segs : List Seg) (ps : List Spec.PSeg)
+    (hv : ∀ s ∈ segs, s.Valid) (hp : toPSegs segs = some ps) :
+    bestFit 4 start l.indicator segs = .error .dataOverflow ↔
+      ∀ u, max start 1 ≤ u → u ≤ 40 → Spec.fits u l (segCounts ps) = false :=
+  QR.Proofs.bestFit_overflow_iff start hs l segs ps hv hp
+
+theorem C07_error_only_overflow (start : Nat) (hs : start ≤ 40) (l : Spec.Level) (segs : List Seg) (ps : List Spec.PSeg)
+    (hv : ∀ s ∈ segs, s.Valid) (hp : toPSegs segs = some ps) (e : Err)
+    (h : bestFit 4 start l.indicator segs = .error e) : e = .dataOverflow :=
+  QR.Proofs.bestFit_error_only_overflow start hs l segs ps hv hp e h
+
+/-- `bisect_left(a, x, lo)` on a sorted list returns the least index ≥ lo whose entry is ≥ x -/
+theorem C07_bisect (a : List Nat) (x : Nat) (hs : ∀ i j, i ≤ j → j < a.length → a.getD i 0 ≤ a.getD j 0)
+    (fuel lo hi : Nat) (h1 : lo ≤ hi) (h2 : hi ≤ a.length) (h3 : hi - lo ≤ fuel) :
+    lo ≤ bisectLeft a x fuel lo hi ∧ bisectLeft a x fuel lo hi ≤ hi ∧
+      (∀ i, lo ≤ i → i < bisectLeft a x fuel lo hi → a.getD i 0 < x) ∧
+      (∀ i, bisectLeft a x fuel lo hi ≤ i → i < hi → x ≤ a.getD i 0) :=
+  QR.Proofs.bisectLeft_spec a x hs fuel lo hi h1 h2 h3
+
+/-- the table the bisect runs on is 8 x ISO data codewords for all 160 pairs (regenerated from the source each run) -/
+theorem C07_capacity_rows : ∀ l ∈ allLevels,
     ∃ row, Gen.BIT_LIMIT_TABLE[l.indicator]? = some row ∧ row.length = 41 ∧ row[0]? = some 0 ∧
-      ∀ v, v < 40 → row[v + 1]? = some (Spec.capacityBits (v + 1) l) := by
-  have h : allLevels.all (fun l =>
-      match Gen.BIT_LIMIT_TABLE[l.indicator]? with
-      | some row => row.length == 41 && row[0]? == some 0 &&
-          (List.range 40).all fun v => row[v + 1]? == some (Spec.capacityBits (v + 1) l)
-      | none => false) = true := by decide +kernel
-  intro l hl
-  have := forall_mem_of_all h l hl
-  revert this
-  cases Gen.BIT_LIMIT_TABLE[l.indicator]? with
-  | none => intro h; simp at h
-  | some row =>
-    intro h
-    simp only [Bool.and_eq_true, beq_iff_eq, List.all_eq_true, List.mem_range] at h
-    exact ⟨row, rfl, h.1.1, h.1.2, h.2⟩
+      ∀ v, v < 40 → row[v + 1]? = some (Spec.capacityBits (v + 1) l) := C07_capacity_table
 
-set_option maxRecDepth 100000 in
-/-- capacities strictly increase with the version at every level (the bisect precondition) -/
-theorem C07_capacity_monotone : ∀ l ∈ allLevels, ∀ v, v < 39 →
-    Spec.capacityBits (v + 1) l < Spec.capacityBits (v + 2) l := by
-  have h : allLevels.all (fun l => (List.range 39).all fun v =>
-      decide (Spec.capacityBits (v + 1) l < Spec.capacityBits (v + 2) l)) = true := by decide +kernel
-  intro l hl v hv
-  simpa using forall_lt_of_all (forall_mem_of_all h l hl) v hv
-
-/-- published capacities (tests of the Spec): 40-L 7089/4296/2953, 40-H 3057/1852/1273, 1-L 41/25/17, 1-H 17/10/7 -/
-example : Spec.isoCapacity .numeric 40 .L = 7089 ∧ Spec.isoCapacity .alnum 40 .L = 4296 ∧ Spec.isoCapacity .byte 40 .L = 2953 := by decide
-example : Spec.isoCapacity .numeric 40 .H = 3057 ∧ Spec.isoCapacity .alnum 40 .H = 1852 ∧ Spec.isoCapacity .byte 40 .H = 1273 := by decide
-example : Spec.isoCapacity .numeric 1 .L = 41 ∧ Spec.isoCapacity .alnum 1 .L = 25 ∧ Spec.isoCapacity .byte 1 .L = 17 := by decide
-example : Spec.isoCapacity .numeric 1 .H = 17 ∧ Spec.isoCapacity .alnum 1 .H = 10 ∧ Spec.isoCapacity .byte 1 .H = 7 := by decide
-example : Spec.isoCapacity .numeric 10 .L = 652 ∧ Spec.isoCapacity .alnum 10 .L = 395 ∧ Spec.isoCapacity .byte 10 .L = 271 := by decide
+theorem C07_capacity_increasing : ∀ l ∈ allLevels, ∀ v, v < 39 →
+    Spec.capacityBits (v + 1) l < Spec.capacityBits (v + 2) l := C07_capacity_monotone
 
 end QR.Props
